@@ -504,6 +504,14 @@ func specC02(tier string) *SeqSpec {
 				Op{Args: []string{"SET", "k1", "10"}, Then: []Op{c("INCRBY", "k1", sp), c("GET", "k1")}},
 				Op{Args: []string{"SET", "k1", "hello"}, Then: []Op{c("GETRANGE", "k1", sp, "-1"), c("SETRANGE", "k1", sp, "X"), c("GET", "k1")}})
 		}
+		// a key whose deadline has passed but which is still stored is a missing key for every command of the
+		// family: what is written then starts afresh, without the old deadline (k2 has a deadline in this state)
+		late := append([]Op{}, A...)
+		late = append(late, c("SET", "k2", "v", "KEEPTTL"), c("SET", "k2", "v", "XX"), c("SET", "k2", "v", "NX", "GET"), c("SET", "k2", "v", "XX", "KEEPTTL"), c("GETEX", "k2", "PERSIST"), c("GETEX", "k2", "EX", "50"), c("STRLEN", "k2"), c("GETRANGE", "k2", "0", "-1"),
+			c("SETRANGE", "k2", "2", "Z"), c("APPEND", "k2", ""), c("INCRBYFLOAT", "k2", "1.5"), c("DECRBY", "k2", "1"), c("MSETNX", "k2", "q"), c("GETSET", "k2", "g"), c("LCS", "k2", "k1"), c("MGET", "k2", "k1"))
+		for _, a := range late {
+			s.InitSweep = append(s.InitSweep, Op{Args: []string{"PING"}, Advance: 100001, Then: []Op{a, c("GET", "k2"), c("PTTL", "k2"), c("GET", "k1"), c("PTTL", "k1")}})
+		}
 		s.InitSweepEvery = 3 // from one of the three initial states
 	}
 	s.Depth = 2
